@@ -65,6 +65,7 @@ def report(rep, traces, prop):
 def main(tier, rep):
     vclock.install()
     common.import_repo()
+    CL.refinement_everywhere(rep)
     traces = run(rep, tier, ["client", "pooled", "hash"], PROP)
     report(rep, traces, PROP)
     rep.set("evaluations", len(traces))
